@@ -27,8 +27,8 @@ func refGFormatForExt(ext string) string {
 //   - a message-format extension: newProcessRawRefMessage (used for `-o` / message refs) and processRawRef (used when
 //     the same file is read back as an input) both succeed and derive the same format and the same compression, which
 //     are the documented ones (.gz => gzip, .zst => zstd, none => none)
-//   - a compression extension on something that is not a message format is rejected by the message parser
-//     (and by the general parser unless it is a tar archive)
+//   - a compression extension on something that is not a message format: if the message parser accepts it at all
+//     (today it does not), the compression still follows the table
 //   - no recognised extension: the message parser falls back to the default encoding, uncompressed
 func VerifLemma_C11F_RefEncodingAgreement() {
 	stem := verifNondetString(verifParam("N"))
@@ -56,10 +56,10 @@ func VerifLemma_C11F_RefEncodingAgreement() {
 	if wantFormat == "" {
 		if compressionExt != "" {
 			verifCover("compressed, not a message format")
-			verifAssert(writeErr != nil, "a compression extension on an unknown message format is rejected for message refs")
-			if formatExt != ".tar" {
-				read := &internal.RawRef{Path: path}
-				verifAssert(processRawRef(read) != nil, "a compression extension on an unknown format is rejected for input refs")
+			// currently rejected by both parsers; rejection is not required, but if the message parser accepts the
+			// path the compression must still follow the table
+			if writeErr == nil {
+				verifAssert(write.CompressionType == wantCompression, "message ref with an unknown format: .gz => gzip, .zst => zstd")
 			}
 			return
 		}
